@@ -371,7 +371,7 @@ void dorewriterm(struct radmsg *msg, uint8_t *rmattrs, uint32_t *rmvattrs, int i
     n = list_first(msg->attrs);
     while (n) {
         attr = (struct tlv *)n->data;
-        if (((rmattrs && strchr((char *)rmattrs, attr->t)) ||
+        if (((rmattrs && attr->t && strchr((char *)rmattrs, attr->t)) ||
              (rmvattrs && attr->t == RAD_Attr_Vendor_Specific && dovendorrewriterm(attr, rmvattrs, inverted))) != !!inverted) {
             list_removedata(msg->attrs, attr);
             freetlv(attr);
